@@ -5,6 +5,7 @@ package main
 // with HcModel/PairVerify.lean on symbolic histories over 1-2 connections and a changing pairing store.
 
 import (
+	"os"
 	"bufio"
 	"bytes"
 	"crypto/ed25519"
@@ -628,10 +629,12 @@ type hoConn struct {
 	started chan struct{}
 	out     [][]byte
 	closed  bool
+	gate    chan struct{} // when set, a Write announces itself on entered and waits here before it completes
+	entered chan struct{}
 }
 
 func newHoConn() *hoConn {
-	return &hoConn{wake: make(chan struct{}, 64), started: make(chan struct{}, 64)}
+	return &hoConn{wake: make(chan struct{}, 64), started: make(chan struct{}, 64), entered: make(chan struct{}, 4)}
 }
 func (h *hoConn) Read(b []byte) (int, error) {
 	h.started <- struct{}{}
@@ -664,11 +667,18 @@ func (h *hoConn) push(b []byte) {
 }
 func (h *hoConn) Write(b []byte) (int, error) {
 	h.mu.Lock()
+	g := h.gate
+	h.mu.Unlock()
+	if g != nil {
+		h.entered <- struct{}{}
+		<-g
+	}
+	h.mu.Lock()
 	defer h.mu.Unlock()
+	h.out = append(h.out, append([]byte{}, b...)) // recorded also when the connection is closed (what the writer tried to send)
 	if h.closed {
 		return 0, io.ErrClosedPipe
 	}
-	h.out = append(h.out, append([]byte{}, b...))
 	return len(b), nil
 }
 func (h *hoConn) Close() error {
@@ -693,7 +703,7 @@ func (h *hoConn) SetWriteDeadline(t time.Time) error { return nil }
 // completes only when something is in flight; `excess` (bytes glued behind the request) can only come first.
 func hoSchedule(r *rand.Rand) []string {
 	var ops []string
-	crypt, wrote, pending, wire, sent := false, false, false, false, false
+	crypt, wrote, pending, wire, sent, writing := false, false, false, false, false, false
 	if r.Intn(4) == 0 {
 		ops = append(ops, "excess")
 	}
@@ -706,11 +716,14 @@ func hoSchedule(r *rand.Rand) []string {
 			if !pending {
 				cand = append(cand, "readStart", "readStart")
 			}
-			if !crypt && !wrote && r.Intn(3) > 0 {
+			if !crypt && !wrote && !writing && r.Intn(3) > 0 {
 				cand = append(cand, "setCrypt", "setCrypt")
 			}
-			if !wrote {
-				cand = append(cand, "writeResp")
+			if !wrote && !writing {
+				cand = append(cand, "writeResp", "writeBegin")
+			}
+			if writing {
+				cand = append(cand, "writeEnd", "writeEnd")
 			}
 			if wrote && crypt && !wire && !sent {
 				cand = append(cand, "peerSends", "peerSends")
@@ -731,6 +744,10 @@ func hoSchedule(r *rand.Rand) []string {
 			crypt = true
 		case "writeResp":
 			wrote = true
+		case "writeBegin":
+			writing = true
+		case "writeEnd":
+			writing, wrote = false, true
 		case "peerSends":
 			wire, sent = true, true
 		case "foreign":
@@ -742,6 +759,9 @@ func hoSchedule(r *rand.Rand) []string {
 	}
 	if pending && wire {
 		ops = append(ops, "readDone")
+	}
+	if writing {
+		ops = append(ops, "writeEnd")
 	}
 	return ops
 }
@@ -764,6 +784,10 @@ func c03Handover(c *Ctx) {
 		{"setCrypt", "event", "writeResp", "peerSends", "readStart", "readDone"},
 		{"event", "setCrypt", "event", "writeResp", "event"},
 		{"event", "writeResp", "event"},
+		{"readStart", "setCrypt", "writeBegin", "foreign", "readDone", "writeEnd"},
+		{"setCrypt", "writeBegin", "readStart", "foreign", "readDone", "writeEnd"},
+		{"setCrypt", "writeBegin", "event", "writeEnd", "event"},
+		{"writeBegin", "readStart", "foreign", "readDone", "writeEnd"},
 	}
 	nfixed := len(schedules)
 	for i := 0; i < c.Pick(60, 1500); i++ {
@@ -824,7 +848,8 @@ func c03Handover(c *Ctx) {
 				c.Violate("a plaintext request is not handed on unchanged", id, ops, hx(finish), hx(got))
 			})
 		}
-		answerChunks := 0
+		answerChunks, writeBase := 0, 0
+		var writeDone chan struct{}
 		conn.SetServing(true) // net/http: the request was read, the connection is active until the response is written
 		eventMsg := []byte("EVENT/1.0 200 OK\r\nContent-Type: application/hap+json\r\nContent-Length: 49\r\n\r\n{\"characteristics\":[{\"aid\":1,\"iid\":10,\"value\":42}]}")
 		for _, op := range rest {
@@ -835,6 +860,13 @@ func c03Handover(c *Ctx) {
 			case "event":
 				conn.WriteEvent(eventMsg)
 			case "readStart":
+				for drained := false; !drained; { // signals of earlier reads (the request itself) must not be taken for this one
+					select {
+					case <-raw.started:
+					default:
+						drained = true
+					}
+				}
 				go func() {
 					var one [1]byte // net/http's background read asks for one byte
 					n, err := conn.Read(one[:])
@@ -867,6 +899,44 @@ func c03Handover(c *Ctx) {
 						c.Violate("the answer to the pair-verify finish request is not sent in plaintext (cryptographer handed over too early)", id, ops, "plaintext M4", fmt.Sprintf("%d bytes, first %s", len(all), hx(all[:min(8, len(all))])))
 					})
 				}
+			case "writeBegin":
+				raw.mu.Lock()
+				writeBase = len(raw.out)
+				raw.gate = make(chan struct{})
+				raw.mu.Unlock()
+				writeDone = make(chan struct{})
+				go func() { conn.Write(answer); close(writeDone) }()
+				select {
+				case <-raw.entered: // the answer is on its way to the socket
+				case <-time.After(2 * time.Second):
+				}
+			case "writeEnd":
+				if writeDone == nil {
+					break
+				}
+				raw.mu.Lock()
+				g := raw.gate
+				raw.gate = nil
+				raw.mu.Unlock()
+				close(g)
+				<-writeDone
+				writeDone = nil
+				raw.mu.Lock()
+				var all []byte
+				if writeBase < len(raw.out) {
+					all = raw.out[writeBase]
+				}
+				answerChunks = 1
+				raw.mu.Unlock()
+				conn.SetServing(false)
+				if bytes.Equal(all, answer) {
+					resp = "plain"
+				} else {
+					resp = "enc"
+					viol = append(viol, func() {
+						c.Violate("the answer to the pair-verify finish request is not sent in plaintext (cryptographer handed over too early)", id, ops, "plaintext M4", fmt.Sprintf("%d bytes, first %s", len(all), hx(all[:min(8, len(all))])))
+					})
+				}
 			case "peerSends":
 				raw.push(peer.Encrypt(request))
 				wire = "cipher"
@@ -876,6 +946,9 @@ func c03Handover(c *Ctx) {
 			case "readDone":
 				select {
 				case x := <-done:
+					if os.Getenv("HO_DEBUG") != "" {
+						fmt.Fprintf(os.Stderr, "HO readDone %s wire=%s n=%d b=%02x err=%v\n", id, wire, x.n, x.b, x.err)
+					}
 					switch {
 					case wire == "cipher":
 						got := []byte{x.b}
@@ -910,6 +983,24 @@ func c03Handover(c *Ctx) {
 				}
 			}
 		}
+		if writeDone != nil { // the connection was closed while the answer was on its way: let the write finish
+			raw.mu.Lock()
+			g := raw.gate
+			raw.gate = nil
+			raw.mu.Unlock()
+			close(g)
+			<-writeDone
+			raw.mu.Lock()
+			if writeBase < len(raw.out) {
+				if bytes.Equal(raw.out[writeBase], answer) {
+					resp = "plain"
+				} else {
+					resp = "enc"
+				}
+				answerChunks = 1
+			}
+			raw.mu.Unlock()
+		}
 		closed := 0
 		if raw.isClosed() {
 			closed = 1
@@ -940,6 +1031,9 @@ func c03Handover(c *Ctx) {
 		}
 		for _, v := range viol {
 			v()
+		}
+		if os.Getenv("HO_DEBUG") != "" {
+			fmt.Fprintln(os.Stderr, "HO", id, ops, "| model:", model, "| impl:", impl, "| verified:", verified)
 		}
 		c.Same("handover", id, ops, model, impl)
 		kind := "random"
